@@ -58,7 +58,8 @@ theorem theory_guard (negated constraintRule : Bool) :
 theorem element_terms_guard (n : Nat) :
     telElemRejected (n : Int) = (n != 1) ∧ delElemRejected (n : Int) = (n != 1) := by
   unfold telElemRejected delElemRejected
-  constructor <;> (rw [Bool.eq_iff_iff]; simp only [bne_iff_ne]; omega)
+  -- whatever equivalent spelling of the test is regenerated (`!=`, `not … ==`, `> 1 or < 1`): as propositions over the integers
+  constructor <;> (rw [Bool.eq_iff_iff]; simp; try omega)
 
 /-- the core is not an initially / finally form: it does not start with a single `_` nor end with one -/
 def PlainCore (core : List Char) : Prop :=
